@@ -157,7 +157,12 @@ pub fn word_reading(word: &str) -> Option<Reading> {
         return Some(vec![(0, u)]);
     }
     let rs = readings(word);
-    if rs.len() == 1 {
+    // conventional preference: one prefixed unit before a product of units
+    let singles: Vec<&Reading> = rs.iter().filter(|r| r.len() == 1).collect();
+    if singles.len() == 1 {
+        return Some(singles[0].clone());
+    }
+    if singles.is_empty() && rs.len() == 1 {
         return rs.into_iter().next();
     }
     None
